@@ -633,6 +633,12 @@ _WORD_START = set("abcdefghijklmnopqrstuvwxyzABCDEFGHIJKLMNOPQRSTUVWXYZ012345678
 _SEPS = [" ", "\n", "  ", "\t", " \n  ", "\n\n", " /* c */ ", "/**/", " // note\n", "//x\n    ", " \\\n ", "/* a\n b */"]
 
 
+# comments that look like something else: meta-attribute lines (only the run of //?: lines at the very TOP of a file is a
+# header; anywhere else they are comments), commented-out code
+_SEPS_LOOKALIKE = ["\n//?: is-ssb-script: true\n", " //?: is-ssb-script: 1\n", "\n    //?: key: value\n", " /* //?: is-ssb-script: true */ ",
+                   "\n// def 0 { end; }\n", "/*\n//?: is-ssb-script: true\n*/", "\n//?:\n"]
+
+
 def needs_sep(a: str, b: str) -> bool:
     if not a or not b:
         return False
@@ -663,12 +669,17 @@ def assemble(toks: list[Tok], layout=None, dims: set | None = None) -> tuple[str
             if sep == "" and needs_sep(prev, t.s):
                 sep = " "
         else:
-            k = layout(len(_SEPS) + 6)
+            k = layout(len(_SEPS) + 7)
             if k < len(_SEPS):
                 sep = _SEPS[k]
                 used_layout = True
             elif k < len(_SEPS) + 3:
                 sep = "\n" + " " * (4 * t.ind) if t.pre == "\n" else t.pre
+            elif k == len(_SEPS) + 6 and i > 0:
+                sep = _SEPS_LOOKALIKE[layout(len(_SEPS_LOOKALIKE))]
+                used_layout = True
+                if dims is not None:
+                    dims.add("lookalike_comment")
             else:
                 sep = ""
             if i == 0 and sep.strip() == "" and "\n" not in sep:
